@@ -827,27 +827,28 @@ Definition run (w : world) (ops : list op) : world := fold_left step ops w.
 Definition n_defs (ops : list op) : nat := List.length (filter is_def ops).
 
 (** After definition [t]: only the class operations on [t] itself, which is class
-    number 0 of the reduced history. *)
-Fixpoint keep_self (t : nat) (ops : list op) : list op :=
+    number [t0] of the reduced history. *)
+Fixpoint keep_self (t t0 : nat) (ops : list op) : list op :=
   match ops with
   | [] => []
-  | OClassOp c t' :: r => if Nat.eqb t' t then OClassOp c 0 :: keep_self t r else keep_self t r
-  | _ :: r => keep_self t r
+  | OClassOp c t' :: r => if Nat.eqb t' t then OClassOp c t0 :: keep_self t t0 r else keep_self t t0 r
+  | _ :: r => keep_self t t0 r
   end.
 
 (** The history of definition number [t] without the other definitions ([i] = number
     of definitions seen so far): the caller's operations on its own objects before it,
-    the definition, and the class operations on the class itself afterwards.  Class
+    the definition, and the class operations on the class itself afterwards ([t0] =
+    its number in the reduced history).  Class
     operations on OTHER classes are dropped together with those classes. *)
-Fixpoint alone_from (i t : nat) (ops : list op) : list op :=
+Fixpoint alone_from (i t t0 : nat) (ops : list op) : list op :=
   match ops with
   | [] => []
   | o :: r =>
-      if is_def o then (if Nat.eqb i t then o :: keep_self t r else alone_from (S i) t r)
-      else if is_cop o then alone_from i t r
-      else o :: alone_from i t r
+      if is_def o then (if Nat.eqb i t then o :: keep_self t t0 r else alone_from (S i) t t0 r)
+      else if is_cop o then alone_from i t t0 r
+      else o :: alone_from i t t0 r
   end.
-Definition alone (k : nat) (ops : list op) : list op := alone_from 0 k ops.
+Definition alone (k : nat) (ops : list op) : list op := alone_from 0 k 0 ops.
 
 (** ** Behaviour fingerprint: what can be observed of a class from outside *)
 
